@@ -38,6 +38,28 @@ def job_seed(job):
                           job["profile"], job["run_index"])
 
 
+def _assert_worker_pristine():
+  """The process that forks SUBJECT / FRESH children must never have used a
+  stateful library API itself."""
+  mods = sys.modules
+  par = mods.get("paranoid_crypto.lib.paranoid")
+  ecu = mods.get("paranoid_crypto.lib.ec_util")
+  if par is not None and any(par._check_factory.values()):  # pylint: disable=protected-access
+    raise core.HarnessError("worker process polluted: check registry filled")
+  if ecu is not None:
+    for c in ecu.CURVE_FACTORY.values():
+      if c is not None and (c._table_size or c._cache):  # pylint: disable=protected-access
+        raise core.HarnessError("worker process polluted: curve cache filled")
+
+
+def _gen_plan(job):
+  eng = engine_module(job["engine"])
+  plan = eng.gen_plan(job_seed(job), tier=job["tier"],
+                      profile=job["profile"], focus=job["property"])
+  plan["run_seed"] = job_seed(job)
+  return plan
+
+
 def do_job(job):
   """Executed in a pool worker (or inline).  Never raises."""
   t0 = time.time()
@@ -47,14 +69,16 @@ def do_job(job):
     eng = engine_module(job["engine"])
     plan = job["plan"]
     if plan is None:
-      plan = eng.gen_plan(job_seed(job), tier=job["tier"],
-                          profile=job["profile"], focus=job["property"])
-      plan["run_seed"] = job_seed(job)
+      # generated in a throw-away child: generation reads library data and may
+      # touch library state, and the worker that forks the SUBJECT must stay
+      # pristine from the first run to the last
+      plan = core.run_in_child(_gen_plan, (job,), 600.0, "plan generation")
     plan.setdefault("focus", job["property"])
     events, violations, stats = eng.execute(plan)
     out.update(ok=True, digest=core.digest(events), violations=violations,
                stats=stats, plan=plan if (violations or job.get("keep_plan"))
                else None, sample=eng.sample_history(plan))
+    _assert_worker_pristine()
   except core.HarnessError as ex:
     out.update(ok=False, error="HarnessError: %s" % ex)
   except BaseException as ex:  # pylint: disable=broad-except
